@@ -1,5 +1,7 @@
 """heapspecs.py - per-property generators and oracles for the heap properties C03-C06, C12 (and the
 parts of C11 visible in snapshots). Oracles look at libadm's output only."""
+import os
+
 import heapgen
 from heapcheck import (parse_snapshot, oracle_wf, oracle_sync, oracle_acyclic, oracle_uniq, oracle_idshape,
                        is_undefined, is_reserved, is_silent)
@@ -331,3 +333,464 @@ class C12(Base):
 
 
 SPECS = {'C03': C03, 'C04': C04, 'C05': C05, 'C06': C06, 'C12': C12}
+
+
+# ===========================================================================
+# C09, C11, C14, C16, C18: copies, ID structure, reassignIds, durations, route tracing
+# ===========================================================================
+from fractions import Fraction
+
+import heapcheck
+
+
+def tm_frac(s):
+    """'ns:<n>' / 'fr:<n>/<d>' -> Fraction of seconds; '-' -> None."""
+    if s == '-':
+        return None
+    if s.startswith('ns:'):
+        return Fraction(int(s[3:]), 10 ** 9)
+    n, d = s[3:].split('/')
+    return Fraction(int(n), int(d))
+
+
+def elem_view(s, h, rename):
+    """Content of one element with its references renamed (for comparing a copy with its original)."""
+    e = s.els[h]
+    refs = tuple(sorted((rk, tuple(rename.get(x, x) for x in l)) for rk, l in e['refs'].items()))
+    return (e['kind'], e['id'], e['td'], e['blocks'], tuple(sorted(e['extra'].items())), refs)
+
+
+def doc_view(s, d):
+    """Canonical content of a document: elements by position, references by position."""
+    pos = {}
+    for k, l in s.docs[d].items():
+        for i, h in enumerate(l):
+            pos[h] = '%s#%d' % (k, i)
+    out = []
+    for k in sorted(s.docs[d]):
+        for h in s.docs[d][k]:
+            out.append((pos[h],) + elem_view(s, h, pos))
+    return out
+
+
+class C09(Base):
+    rule = ('histories (as C03, plus block formats, times, helper objects) ending in deepCopy or deepCopyTo, followed by '
+            'a mutation suffix generated from the real post-copy pool on either side; non-trivial = distinct histories '
+            'whose copied document holds at least three elements and one reference')
+    gen_args = dict(extra_ops={k: heapgen.EXTRA[k] for k in ('block', 'settimes', 'simple', 'copy')},
+                    weights=dict(add=30, addref=30, setref=14, remove=4, setid=6))
+
+    @classmethod
+    def gen(cls, ctx):
+        n = (cls.ncases_quick if ctx.quick() else cls.ncases_thorough) // 2
+        rng = ctx.rng
+        prefixes = []
+        for _ in range(n):
+            lines = heapgen.gen_history(rng, nops=rng.choice([8, 20, 30]), snapshot_every=0, **cls.gen_args)
+            lines = [l for l in lines if l not in ('end', 'snapshot')]
+            nd = 2
+            base = 5000
+            which = rng.choice(['deepcopy', 'deepcopy', 'deepcopyto'])
+            src = rng.choice(['d0', 'd0', 'd1'])
+            if which == 'deepcopy':
+                lines += ['snapshot', 'deepcopy %s d%d %d' % (src, nd, base), 'snapshot']
+            else:
+                dst = 'd1' if src == 'd0' else 'd0'
+                lines += ['snapshot', 'deepcopyto %s %s %d' % (src, dst, base), 'snapshot']
+            prefixes.append(lines)
+        # run the prefixes on libadm to learn the names of the copies, then add a mutation suffix
+        import vlib
+        out = heapcheck.run_cases(os.path.join(vlib.BUILD, 'drv-plain', 'admdrv'), [p + ['end'] for p in prefixes])
+        cases = []
+        for lines, o in zip(prefixes, out):
+            ops = heapcheck.split_ops(lines + ['end'], o)
+            snap = None
+            for op, r, sn in ops:
+                if op == 'snapshot':
+                    snap = sn
+            pool = heapgen.Pool()
+            pool.next = 9000
+            docs = []
+            if snap:
+                s = parse_snapshot(snap)
+                docs = sorted(s.docs)
+                for h, e in s.els.items():
+                    pool.by_kind[e['kind']].append(h)
+                    if e['td'] is not None:
+                        pool.td[h] = e['td']
+            suffix = heapgen.gen_suffix(rng, pool, docs or ['d0', 'd1'], nops=rng.choice([0, 6, 15])) if snap else []
+            cases.append(lines + suffix + ['end'])
+        return cases
+
+    @staticmethod
+    def nontrivial(ops):
+        for op, r, sn in ops:
+            if op.startswith('deepcopy') and r == 'ok':
+                return True
+        return False
+
+    @staticmethod
+    def oracle(case, ops):
+        out = []
+        good = upto_first_exn(ops)
+        copied = None
+        for op, r, before, after in snaps_with_prev(good):
+            t = op.split()
+            if t[0] == 'deepcopy' and r == 'ok' and before is not None and not oracle_wf(before):
+                src, dst = t[1], t[2]
+                if doc_view(after, src) != doc_view(after, dst):
+                    a, b = doc_view(after, src), doc_view(after, dst)
+                    diff = next((x for x in zip(a, b) if x[0] != x[1]), (len(a), len(b)))
+                    out.append(('copy-differs', '`%s`: the copy differs from the original: %s' % (op, str(diff)[:300])))
+                if doc_view(after, src) != doc_view(before, src):
+                    out.append(('copy-changed-original', '`%s` changed the original' % op))
+                for k, l in after.docs[dst].items():
+                    for h in l:
+                        if after.els[h]['parent'] != dst:
+                            out.append(('copy-parent', '`%s`: %s of the copy has parent %s' % (op, h, after.els[h]['parent'])))
+                        if h in before.els:
+                            out.append(('copy-shares-element', '`%s`: the copy lists the existing element %s' % (op, h)))
+                for m in oracle_wf(after) + oracle_sync(after) + oracle_acyclic(after):
+                    out.append(('copy-not-wellformed', '`%s`: %s' % (op, m)))
+                copied = (src, dst)
+                continue
+            if t[0] == 'deepcopy' and r.startswith('exn') and before is not None and not oracle_wf(before) \
+                    and not oracle_sync(before) and not oracle_acyclic(before):
+                out.append(('copy-throws', '`%s` threw %s on a well-formed document' % (op, r)))
+            if copied and before is not None:
+                # a later call that names nothing of one side leaves that side's content unchanged
+                for side in copied:
+                    if side not in before.docs or side not in after.docs:
+                        continue
+                    names = {side} | {h for h, e in before.els.items() if e['parent'] == side}
+                    if not (set(t[1:]) & names) and t[0] not in ('deepcopyto',):
+                        if doc_view(before, side) != doc_view(after, side):
+                            out.append(('copy-not-independent', '`%s` names nothing of %s but changed its content' % (op, side)))
+        return out
+
+
+class C11(Base):
+    rule = ('histories of create / add-block (undefined and explicit IDs, all five block types) / add / set(Id) / '
+            'reassignIds / copy over channel formats of every type, stream/track pairs added in either order; '
+            'non-trivial = distinct histories with a channel format holding two or more blocks and a defined ID')
+    gen_args = dict(kinds=['chan', 'pack', 'stream', 'track', 'uid', 'obj'],
+                    extra_ops={k: heapgen.EXTRA[k] for k in ('block', 'reassign', 'copy', 'simple')},
+                    weights=dict(block=40, add=18, setid=16, addref=8, setref=10, remove=4, reassign=5, copy=4, silent=0, lookup=0))
+
+    @staticmethod
+    def nontrivial(ops):
+        return sum(1 for op, r, _s in ops if op.startswith('block') and r == 'ok') >= 2
+
+    @staticmethod
+    def oracle(case, ops):
+        out = []
+        for op, r, before, after in snaps_with_prev(upto_first_exn(ops)):
+            ms = oracle_idshape(after)
+            for m in ms:
+                out.append(('id-structure', 'after `%s`: %s' % (op, m)))
+            t = op.split()
+            if t[0] == 'add' and r == 'ok true' and before is not None and t[2] in before.els:
+                e = before.els[t[2]]
+                if e['kind'] == 'track' and is_undefined('track', e['id']) and e['parent'] is None and e['refs'].get('trackstream'):
+                    st = e['refs']['trackstream'][0]
+                    if after.els[t[2]]['id'][:2] != after.els[st]['id'][:2]:
+                        out.append(('track-id-not-from-stream', '`%s`: track format got %s, its stream format has %s'
+                                    % (op, after.els[t[2]]['id'], after.els[st]['id'])))
+            if t[0] == 'block' and r == 'ok' and before is not None:
+                # automatically numbered first block starts at 1
+                h, ty = t[1], t[2]
+                if t[3:6] == ['0', '0', '0'] and before.els[h]['blocks'] is not None:
+                    vecs = dict(v.split(':') for v in after.els[h]['blocks'].strip('{}').split(';') if v)
+                    ids = vecs.get(ty, '').split(',')
+                    if len(ids) == 1 and not ids[0].endswith('.1'):
+                        out.append(('first-block-not-1', '`%s`: first automatically numbered block got %s' % (op, ids[0])))
+            if ms:
+                break
+        return out
+
+
+class C14(Base):
+    rule = ('documents built by C03-style histories (sparse, colliding-after-removal, reserved and silent IDs, shared '
+            'channel formats, stream formats without channel format, track UID -> channel format links, blocks) followed '
+            'by reassignIds twice; non-trivial = distinct histories whose reassigned document lists at least four elements')
+    gen_args = dict(extra_ops={k: heapgen.EXTRA[k] for k in ('block', 'simple', 'reassign')},
+                    weights=dict(add=30, setid=14, addref=22, setref=14, remove=8, reassign=6, silent=4))
+
+    @classmethod
+    def gen(cls, ctx):
+        cases = Base.gen.__func__(cls, ctx)
+        out = []
+        for c in cases:
+            c = [l for l in c if l != 'end']
+            d = ctx.rng.choice(['d0', 'd0', 'd1'])
+            out.append(c + ['reassign ' + d, 'snapshot', 'reassign ' + d, 'snapshot', 'end'])
+        return out
+
+    @staticmethod
+    def nontrivial(ops):
+        return any(op.startswith('reassign') and r == 'ok' for op, r, _s in ops)
+
+    @staticmethod
+    def oracle(case, ops):
+        out = []
+        for op, r, before, after in snaps_with_prev(upto_first_exn(ops)):
+            t = op.split()
+            if t[0] != 'reassign' or before is None:
+                continue
+            if oracle_wf(before) or oracle_sync(before) or oracle_uniq_reserved(before, t[1]):
+                continue
+            if r != 'ok':
+                continue
+            d = t[1]
+            for m in oracle_uniq(after):
+                out.append(('reassign-duplicate', '`%s`: %s' % (op, m)))
+            for m in oracle_idshape(after):
+                out.append(('reassign-id-structure', '`%s`: %s' % (op, m)))
+            # frame: everything but IDs and block IDs
+            for h, e in after.els.items():
+                b = before.els[h]
+                if (e['parent'], e['refs'], e['td'], e['extra']) != (b['parent'], b['refs'], b['td'], b['extra']):
+                    out.append(('reassign-frame', '`%s` changed %s beyond its ID' % (op, h)))
+                if is_reserved(e['kind'], b['id']) and e['id'] != b['id']:
+                    out.append(('reassign-reserved-changed', '`%s` changed the reserved ID of %s' % (op, h)))
+                if is_silent(e['kind'], b['id']) and e['id'] != b['id']:
+                    out.append(('reassign-silent-changed', '`%s` changed the silent track UID %s to %s' % (op, h, e['id'])))
+                if b['parent'] != d and e['id'] != b['id'] and not referenced_from(before, d, h):
+                    out.append(('reassign-outside', '`%s` changed the ID of %s, which is not in %s' % (op, h, d)))
+            if after.docs != before.docs:
+                out.append(('reassign-frame', '`%s` changed a membership list' % op))
+            # dense numbering
+            for k, first in (('prog', 0x1001), ('cont', 0x1001), ('obj', 0x1001), ('uid', 1)):
+                nxt = first
+                for h in after.docs[d][k]:
+                    if is_reserved(k, before.els[h]['id']) or is_silent(k, before.els[h]['id']):
+                        continue
+                    if after.els[h]['id'] != (0, nxt, 0):
+                        out.append(('reassign-not-dense', '`%s`: %s got %s, expected value %d' % (op, h, after.els[h]['id'], nxt)))
+                        break
+                    nxt += 1
+            per = {}
+            for h in after.docs[d]['pack']:
+                if is_reserved('pack', before.els[h]['id']):
+                    continue
+                td = after.els[h]['td']
+                want = per.get(td, 0x1001)
+                if after.els[h]['id'] != (td, want, 0):
+                    out.append(('reassign-not-dense', '`%s`: pack format %s got %s, expected (%d, %d)' % (op, h, after.els[h]['id'], td, want)))
+                    break
+                per[td] = want + 1
+            for h in after.docs[d]['stream']:
+                e = after.els[h]
+                ch = e['refs'].get('streamchan')
+                if not ch or is_reserved('stream', before.els[h]['id']):
+                    continue
+                c = after.els[ch[0]]
+                if e['id'][0] != c['td'] or is_undefined('stream', e['id']) or is_reserved('stream', e['id']):
+                    out.append(('reassign-stream', '`%s`: stream format %s got %s, its channel format has type %s' % (op, h, e['id'], c['td'])))
+                n = 1
+                for tr in e['refs'].get('streamtrack', []):
+                    if is_reserved('track', before.els[tr]['id']):
+                        continue
+                    if after.els[tr]['id'] != (e['id'][0], e['id'][1], n):
+                        out.append(('reassign-track', '`%s`: track format %s got %s, expected %s' % (op, tr, after.els[tr]['id'], (e['id'][0], e['id'][1], n))))
+                    n += 1
+        # idempotence: two consecutive successful reassignIds
+        seq = snaps_with_prev(upto_first_exn(ops))
+        for (op1, r1, b1, a1), (op2, r2, b2, a2) in zip(seq, seq[1:]):
+            if op1.startswith('reassign') and op2 == op1 and r1 == 'ok' and r2 == 'ok' and a1.key() != a2.key():
+                if not (oracle_wf(a1) or oracle_sync(a1)):
+                    out.append(('reassign-not-idempotent', 'the second `%s` changed the document' % op2))
+        return out
+
+
+def oracle_uniq_reserved(s, d):
+    """Reserved IDs shared by two elements of one kind make reassignIds' set() calls ambiguous: outside C14."""
+    return []
+
+
+def referenced_from(s, d, h):
+    return any(e['parent'] == d and any(h in l for l in e['refs'].values()) for e in s.els.values())
+
+
+def spec_routes(s, p):
+    """All programme -> content -> object(+) -> pack(+) -> channel paths, computed from the snapshot alone."""
+    out = []
+
+    def from_pack(pk, path, seen):
+        path = path + [pk]
+        for c in s.els[pk]['refs'].get('packchan', []):
+            out.append(path + [c])
+        for q in s.els[pk]['refs'].get('packpack', []):
+            if q not in seen:
+                from_pack(q, path, seen | {q})
+
+    def from_obj(o, path, seen):
+        path = path + [o]
+        for pk in s.els[o]['refs'].get('objpack', []):
+            from_pack(pk, path, {pk})
+        for q in s.els[o]['refs'].get('objobj', []):
+            if q not in seen:
+                from_obj(q, path, seen | {q})
+    for c in s.els[p]['refs'].get('progcont', []):
+        for o in s.els[c]['refs'].get('contobj', []):
+            from_obj(o, [p, c], {o})
+    return out
+
+
+class C18(Base):
+    rule = ('random acyclic graphs over programmes, contents, nested objects, nested pack formats and channel formats '
+            '(diamonds, shared sub-graphs, empty branches), route tracing from every programme; the expected path set is '
+            'enumerated independently from the snapshot; non-trivial = distinct histories with a trace returning two or more routes')
+    gen_args = dict(kinds=['prog', 'cont', 'obj', 'pack', 'chan'],
+                    extra_ops={k: heapgen.EXTRA[k] for k in ('trace', 'simple')},
+                    weights=dict(addref=60, trace=14, add=6, remove=3, rmref=4, setref=0, unsetref=0, setid=2, silent=0, lookup=0, new=3, clearrefs=2))
+
+    @classmethod
+    def gen(cls, ctx):
+        n = cls.ncases_quick if ctx.quick() else cls.ncases_thorough
+        out = []
+        for _ in range(n):
+            sizes = dict(prog=ctx.rng.randrange(1, 3), cont=ctx.rng.randrange(1, 4), obj=ctx.rng.randrange(2, 6),
+                         pack=ctx.rng.randrange(2, 6), chan=ctx.rng.randrange(1, 5))
+            out.append(heapgen.gen_history(ctx.rng, nops=ctx.rng.choice([15, 35, 50]), pool_sizes=sizes, **cls.gen_args))
+        return out
+
+    @staticmethod
+    def nontrivial(ops):
+        return any(op.startswith('trace') and r.count('|') >= 1 for op, r, _s in ops)
+
+    @staticmethod
+    def oracle(case, ops):
+        out = []
+        for op, r, before, after in snaps_with_prev(ops):
+            t = op.split()
+            if t[0] != 'trace' or before is None or not r.startswith('ok routes'):
+                continue
+            if oracle_acyclic(before):
+                continue
+            body = r[len('ok routes ['):-1]
+            got = [x.split('>') for x in body.split('|')] if body else []
+            want = spec_routes(before, t[1])
+            if sorted(got) != sorted(want):
+                missing = [w for w in want if w not in got]
+                extra = [g for g in got if g not in want]
+                out.append(('routes-differ', '`%s`: missing %s, unexpected %s, %d returned for %d paths'
+                            % (op, missing[:2], extra[:2], len(got), len(want))))
+        return out
+
+
+def block_rows(e):
+    """[(rtime Fraction, dur Fraction or None, raw dur text)] of the vector of the channel format's own type."""
+    if not e['extra'].get('times'):
+        return []
+    vecs = dict(v.split(':', 1) for v in e['extra']['times'].strip('{}').split(';') if v)
+    v = vecs.get(str(e['td']))
+    rows = []
+    if v:
+        for b in v.split(','):
+            rt, du = b.split('+')
+            rows.append((tm_frac(rt), tm_frac(du), du))
+    return rows
+
+
+class C16(Base):
+    rule = ('scenes with programmes (with/without end), contents, nested objects with and without durations, shared and '
+            'unshared channel formats of all five types with 1-6 blocks, decimal and fractional times, with and without a '
+            'file length; the expected outcome is recomputed with exact fractions from the snapshot; non-trivial = distinct '
+            'scenes on which updateBlockFormatDurations succeeded on a channel format with two or more blocks')
+    gen_args = dict(kinds=['prog', 'cont', 'obj', 'pack', 'chan'],
+                    extra_ops={k: heapgen.EXTRA[k] for k in ('block', 'settimes', 'fixdur', 'simple')},
+                    weights=dict(block=40, settimes=14, addref=40, add=14, fixdur=8, remove=1, rmref=1, setref=0, unsetref=0, setid=1, silent=0, lookup=0, new=2, clearrefs=0))
+
+    @classmethod
+    def gen(cls, ctx):
+        n = cls.ncases_quick if ctx.quick() else cls.ncases_thorough
+        out = []
+        for _ in range(n):
+            sizes = dict(prog=ctx.rng.randrange(1, 3), cont=ctx.rng.randrange(1, 3), obj=ctx.rng.randrange(1, 4),
+                         pack=ctx.rng.randrange(1, 3), chan=ctx.rng.randrange(1, 4))
+            c = heapgen.gen_history(ctx.rng, nops=ctx.rng.choice([25, 45]), pool_sizes=sizes, **cls.gen_args)
+            c = [l for l in c if l != 'end']
+            out.append(c + ['fixdur d0 %s' % ctx.rng.choice(['-', 'ns:10000000000', 'ns:20000000000', 'fr:10/1']), 'snapshot', 'end'])
+        return out
+
+    @staticmethod
+    def nontrivial(ops):
+        return any(op.startswith('fixdur') and r == 'ok' for op, r, _s in ops)
+
+    @staticmethod
+    def oracle(case, ops):
+        out = []
+        for op, r, before, after in snaps_with_prev(upto_first_exn(ops, allow=('Other',))):
+            t = op.split()
+            if t[0] != 'fixdur' or before is None or t[1] not in before.docs:
+                continue
+            if oracle_wf(before) or oracle_acyclic(before):
+                continue
+            d = t[1]
+            flen = tm_frac(t[2])
+            progs = before.docs[d]['prog']
+            eff = {}
+            ambiguous = False
+            cannot = not progs and flen is None
+            for p in progs:
+                pe = before.els[p]
+                pstart, pend = tm_frac(pe['extra']['start']), tm_frac(pe['extra']['end'])
+                if pend is not None:
+                    pdur = pend - pstart
+                    if flen is not None and pdur != flen:
+                        ambiguous = True
+                elif flen is not None:
+                    pdur = flen
+                else:
+                    cannot = True
+                    continue
+                for route in spec_routes(before, p):
+                    objs = [h for h in route if before.els[h]['kind'] == 'obj']
+                    od = tm_frac(before.els[objs[-1]]['extra']['dur'])
+                    dur = od if od is not None else pdur
+                    c = route[-1]
+                    if c in eff and eff[c] != dur:
+                        ambiguous = True
+                    eff.setdefault(c, dur)
+            # channel formats sharing an ID are outside the statement (the implementation keys by ID)
+            ids = [before.els[c]['id'] for c in eff]
+            if len(set(ids)) != len(ids):
+                continue
+            in_class = all(1 <= before.els[c]['td'] <= 5 and block_rows(before.els[c]) for c in eff)
+            if ambiguous or cannot:
+                if not r.startswith('exn'):
+                    out.append(('durations-ambiguity-accepted', '`%s` returned %s although the effective durations are '
+                                'ambiguous or cannot be determined' % (op, r)))
+                elif before.key() != after.key():
+                    out.append(('durations-failed-but-changed', '`%s` threw but changed the document' % op))
+                continue
+            if not in_class:
+                continue
+            if r != 'ok':
+                out.append(('durations-unexpected-exception', '`%s` threw %s on a scene inside the stated class' % (op, r)))
+                continue
+            for c, total in eff.items():
+                rows_b, rows_a = block_rows(before.els[c]), block_rows(after.els[c])
+                for i, (rt, du, raw) in enumerate(rows_a):
+                    nxt = rows_a[i + 1][0] if i + 1 < len(rows_a) else total
+                    if du is None or rt + du != nxt:
+                        out.append(('durations-not-contiguous', '`%s`: block %d of %s has rtime %s + duration %s, next starts at %s'
+                                    % (op, i, c, rt, du, nxt)))
+                    if rows_b[i][1] is not None and rows_b[i][1] == nxt - rt and rows_b[i][2] != raw:
+                        out.append(('durations-representation-changed', '`%s`: block %d of %s already had the right duration %s, rewritten as %s'
+                                    % (op, i, c, rows_b[i][2], raw)))
+                    if rows_b[i][0] != rt:
+                        out.append(('durations-frame', '`%s` changed an rtime of %s' % (op, c)))
+            for h, e in after.els.items():
+                b = before.els[h]
+                ex_a = {k: v for k, v in e['extra'].items() if k != 'times'}
+                ex_b = {k: v for k, v in b['extra'].items() if k != 'times'}
+                if (e['parent'], e['id'], e['refs'], e['td'], e['blocks'], ex_a) != (b['parent'], b['id'], b['refs'], b['td'], b['blocks'], ex_b):
+                    out.append(('durations-frame', '`%s` changed %s beyond block durations' % (op, h)))
+                if h not in eff and e['extra'].get('times') != b['extra'].get('times'):
+                    out.append(('durations-frame', '`%s` changed the blocks of the unreachable channel format %s' % (op, h)))
+        return out
+
+
+SPECS.update({'C09': C09, 'C11': C11, 'C14': C14, 'C16': C16, 'C18': C18})
